@@ -64,7 +64,8 @@ def run_one(entry, tier, tests):
                                env=env, capture_output=True, text=True, timeout=3600)
             kinds = sorted({l.split(':')[1].strip() for l in r.stdout.splitlines()
                             if l.startswith('  violated ')})
-            caught.append((p, r.returncode, kinds))
+            rc = r.returncode if (r.returncode != 1 or 'VIOLATION property=' in r.stdout) else 3
+            caught.append((p, rc, kinds))
         res = dict(id=mid, props=caught, wall=round(time.time() - t0, 1))
         if tests:
             tr = subprocess.run(['/venv/bin/python', '-m', 'pytest', '-q', '-x', '-p',
